@@ -74,6 +74,20 @@ for step in hist:
                 parsed[pv + ':roundtrip'] = (back == o and type(back) is type(o))
         except Exception as ex:
             parsed[pv] = 'ERR:' + type(ex).__name__
+    # the same content WITHOUT naming a version: content shaped like 2.0 (no spec_version) belongs to the 2.0 registration, content carrying spec_version 2.1 to the 2.1 one --
+    # bare, in a 2.0 bundle and in a 2.1 bundle
+    if kind == 'object':
+        for shape in ('2.0', '2.1'):
+            d = {'type': name, 'id': name + '--' + U, 'created': '2020-01-01T00:00:00.000Z', 'modified': '2020-01-01T00:00:00.000Z', 'x_val': 1}
+            if shape == '2.1': d['spec_version'] = '2.1'
+            for wrap in ('bare', 'bundle'):
+                w = dict(d) if wrap == 'bare' else dict({'type': 'bundle', 'id': 'bundle--' + U, 'objects': [dict(d)]}, **({'spec_version': '2.0'} if shape == '2.0' else {}))
+                for ac in (False, True):
+                    try:
+                        o = stix2.parse(w, allow_custom=ac)
+                        if wrap == 'bundle': o = o['objects'][0]
+                        parsed[f'unversioned:{shape}:{wrap}:{ac}'] = type(o).__module__ + '.' + type(o).__name__
+                    except Exception as ex: parsed[f'unversioned:{shape}:{wrap}:{ac}'] = 'ERR:' + type(ex).__name__
     # a registered (non x-) object type is a legal reference target in strict mode, under exactly the versions it is registered for
     refs = {}
     if kind == 'object' and not name.startswith('x-'):
@@ -129,6 +143,35 @@ if kind in ('object', 'observable'):
             back = stix2.parse(o.serialize(), version=ver) if kind == 'object' else stix2.parse_observable(o.serialize(), version=ver)
             if type(back) is not cls or back != o: say('scenario#one class, both versions:round trip', f'{kind} {ver} ({order}): parse(serialize(o)) gives {type(back).__module__}.{type(back).__name__}, equal={back == o}')
         except Exception as ex: say('scenario#one class, both versions:round trip', f'{kind} {ver} ({order}): {type(ex).__name__}: {str(ex)[:160]}')
+elif kind == 'inherit':
+    # the validation a registered custom class is written with applies wherever it is written: in the decorated class itself or in a class it inherits from
+    class Validating(object):
+        def __init__(self, x_val=None, **kwargs):
+            if x_val is not None and x_val < 0: raise ValueError('x_val must not be negative')
+    for ver in ('2.1', '2.0'):
+        m = stix2.v21 if ver == '2.1' else stix2.v20
+        for where in ('own', 'inherited'):
+            def mk(deco):
+                if where == 'own':
+                    class C(object):
+                        def __init__(self, x_val=None, **kwargs):
+                            if x_val is not None and x_val < 0: raise ValueError('x_val must not be negative')
+                else:
+                    class C(Validating): pass
+                return deco(C)
+            props = [('x_val', P.IntegerProperty())]
+            kinds = {'object': lambda: mk(m.CustomObject(f'x-vf-inh-{where[:3]}-o', props)), 'marking': lambda: mk(m.CustomMarking(f'x-vf-inh-{where[:3]}-m', props)),
+                     'extension': lambda: mk(m.CustomExtension(f'x-vf-inh-{where[:3]}-ext', props)),
+                     'observable': lambda: mk(m.CustomObservable(f'x-vf-inh-{where[:3]}-sco', props, **({'id_contrib_props': ['x_val']} if ver == '2.1' else {})))}
+            for kn, reg in kinds.items():
+                try: cls = reg()
+                except Exception as ex:
+                    say('scenario#validation written in the class applies:registration', f'{ver} {kn} ({where} __init__): registration failed: {type(ex).__name__}: {ex}'); continue
+                try: cls(x_val=1)
+                except Exception as ex: say('scenario#validation written in the class applies:valid value', f'{ver} {kn} ({where} __init__): x_val=1 refused: {type(ex).__name__}: {ex}')
+                try:
+                    cls(x_val=-1); say('scenario#validation written in the class applies', f'{ver} custom {kn} whose __init__ check is {where}: a value that check rejects (x_val=-1) is accepted')
+                except (ValueError, stix2.exceptions.STIXError): pass
 else:
     # two registered custom marking types: a marking-definition naming one of them never holds an object of the other
     for ver in ('2.1', '2.0'):
@@ -259,13 +302,25 @@ def run(chk):
                 if p.get(s['ver'] + ':roundtrip') is False: return ('roundtrip#registered custom type', f'{names}: instance of {key} does not survive serialize/parse', {})
                 if (other, CAT[s['kind']], s['name']) not in registered and not (str(p.get(other)).startswith('ERR') or p.get(other) == 'builtins.dict'):
                     return ('scope#registration is version-scoped', f'{names}: {key} also parses under {other}: {p.get(other)}', {})
+                for k2, r in p.items():
+                    if not k2.startswith('unversioned:'): continue
+                    _, shape, wrap, ac = k2.split(':')
+                    if ('2.1', 'observables', s['name']) in registered: continue          # (a 2.1 observable of the same name: content with an id and no spec_version is read as that observable -- the library's documented rule)
+                    is_reg = (shape, 'objects', s['name']) in registered
+                    built = not (str(r).startswith('ERR') or r == 'builtins.dict')
+                    if built and ('.v20.' in r or r.startswith('stix2.v20')) != (shape == '2.0') and 'stix2.v2' in r:
+                        return ('scope#registration is version-scoped', f'{names}: after {s}, {shape}-shaped content of {s["name"]} parsed without a version ({wrap}, allow_custom={ac}) is built as {r}', {})
+                    if built and not is_reg:
+                        return ('scope#registration is version-scoped', f'{names}: after {s}, {shape}-shaped content of {s["name"]} (not registered for {shape}) parsed without a version ({wrap}, allow_custom={ac}) is built as {r}', {})
+                    if is_reg and not built and wrap == 'bare':
+                        return ('exact#registered name parses to the class', f'{names}: after {s}, {shape}-shaped content of {s["name"]} parsed without a version (allow_custom={ac}) gives {r}', {})
         return None
     def scen_check(case):
         r = subprocess.run([sys.executable, '-c', SCENARIO, case[0], case[1]], capture_output=True, text=True, env=env, timeout=120)
         if r.returncode != 0: raise RuntimeError('scenario worker failed: ' + r.stderr[-300:])
         found = json.loads(r.stdout.strip().splitlines()[-1])
         if found: return (found[0][0], found[0][1], {'order': case[0], 'kind': case[1], 'all': found[:5]})
-    chk.bounded('cross-version and cross-class scenarios (fresh subprocess each)', [(o, k) for o in ('20-first', '21-first') for k in ('object', 'observable', 'marking')], scen_check, classify=lambda c: c,
+    chk.bounded('cross-version and cross-class scenarios (fresh subprocess each)', [(o, k) for o in ('20-first', '21-first') for k in ('object', 'observable', 'marking')] + [('20-first', 'inherit')], scen_check, classify=lambda c: c,
                 bound='one undecorated class registered under both spec versions (2.1 with extension_name) as object / observable, two custom markings and marking definitions naming one but holding the other; both registration orders')
     chk.bounded('registration histories (fresh subprocess each)', histories(), check, classify=lambda h: tuple((s['kind'], s['name'], s['ver']) for s in h),
                 bound='histories of length <= 3 over {4 kinds x 2 versions x valid/duplicate/invalid names}; ' + ('all pairs, 64 triples' if chk.tier == 'thorough' else 'every 3rd pair, every 7th triple'))
